@@ -119,6 +119,11 @@ def _vm_history(t, out):
 
 def _vm_seek(t, out):
     content = _s(t[0])
+    ranged = t[1][1] == "1"
+    t = [t[0]] + t[3:]
+    head, _, out = out.partition(" | ")
+    if head != ("seeker" if ranged else "noseeker"):
+        return "False"
     nm = int(t[1])
     ms = [(t[2 + 2 * k], t[3 + 2 * k]) for k in range(nm)]
     modes = "(fun _ => mkBm 0 false)"
@@ -132,11 +137,15 @@ def _vm_seek(t, out):
         if t[i] == "r":
             ops.append("SRead %s" % t[i + 1]); i += 2
         elif t[i] == "s":
-            ops.append("SSeek (%s)%%Z %s" % (t[i + 1], ["SeekStart", "SeekCurrent", "SeekEnd"][int(t[i + 2])])); i += 3
+            if ranged:
+                ops.append("SSeek (%s)%%Z %s" % (t[i + 1], ["SeekStart", "SeekCurrent", "SeekEnd"][int(t[i + 2])]))
+            i += 3
         else:
-            ops.append("SClose"); i += 1
+            if ranged:
+                ops.append("SClose")
+            i += 1
     exp = []
-    for p_ in out.split(" | "):
+    for p_ in ([] if out == "" else out.split(" | ")):
         rq, _, o = p_.partition(":")
         rqs = "(@nil (N * N))" if rq == "-" else "[" + "; ".join("(%s, %s)" % tuple(x.split("-")) for x in rq.split("+")) + "]"
         if o.startswith("data:"):
